@@ -11,24 +11,7 @@ from world import seg, hs_sig
 
 ALG_NAMES = ["none", "HS256", "HS384", "HS512", "RS256", "RS384", "RS512", "ES256", "ES384", "ES512",
              "PS256", "PS384", "PS512", "ES256K", "EdDSA"]
-FAMILY = {"HS256": "oct", "HS384": "oct", "HS512": "oct", "RS256": "rsa", "RS384": "rsa", "RS512": "rsa",
-          "PS256": "rsa", "PS384": "rsa", "PS512": "rsa", "ES256": "ec", "ES384": "ec", "ES512": "ec",
-          "ES256K": "ec", "EdDSA": "okp"}
-EC_BITS = {"ES256": 256, "ES256K": 256, "ES384": 384, "ES512": 521}
-HS_MIN = {"HS256": 32, "HS384": 48, "HS512": 64}
-
-
-def usable(key, alg):
-    """may `alg` be evaluated with `key` at all, per the property (family + strength floor)?"""
-    if alg not in FAMILY or FAMILY[alg] != key.kty:
-        return False
-    if key.kind == "oct":
-        return len(key.k) >= HS_MIN[alg]
-    if key.kty == "rsa":
-        return key.bits >= 2048
-    if key.kty == "ec":
-        return key.bits == EC_BITS[alg]
-    return key.bits in (256, 456)
+FAMILY, EC_BITS, HS_MIN, usable = K.FAMILY, K.EC_BITS, K.HS_MIN, K.usable
 
 
 class KeyPool:
@@ -780,3 +763,488 @@ def token_shapes(world, pool, tier, rng):
                 metas.append((len(world.ops), {"kind": "verify", "keyed": keyed, "hdr": hname, "shape": sname, "may_accept": may, "must_accept": may}))
                 world.op("ck 0 verify " + hx(tok), tag="verify")
     return metas
+
+
+# =====================================================================================
+# Builder-side suites (C03b, C05, C09b, C10, C13b, C14b, C15)
+# =====================================================================================
+import pyspec as PS
+import jsonlib as JL
+
+
+def decode_token(tok):
+    """independent reader: (header tree, payload tree, sig bytes) or None"""
+    import base64
+    parts = tok.split(b".")
+    if len(parts) != 3:
+        return None
+    out = []
+    for p in parts:
+        if any(c not in b"ABCDEFGHIJKLMNOPQRSTUVWXYZabcdefghijklmnopqrstuvwxyz0123456789-_" for c in p) or len(p) % 4 == 1:
+            return None
+        try:
+            out.append(base64.urlsafe_b64decode(p + b"=" * (-len(p) % 4)))
+        except Exception:
+            return None
+    okh, h = JL.loads(out[0])
+    okp, p = JL.loads(out[1])
+    if not okh or not okp:
+        return None
+    return h, p, out[2]
+
+
+SET_VALUES = [("int", "0"), ("int", "-1"), ("int", str(2 ** 63 - 1)), ("str", "-"), ("str", hx(b"x")), ("str", "NULL"),
+              ("bool", "0"), ("bool", "1"), ("bool", "2"),
+              ("json", hx(b"{}")), ("json", hx(b'{"a":1,"c":[]}')), ("json", hx(b"[1]")), ("json", hx(b"1")), ("json", hx(b"{")),
+              ("json", "NULL"), ("json", hx(b'{"a":1,"a":2}'))]
+NAMES = [hx(b"a"), hx(b"c"), "-", "NULL"]
+
+
+def setget_ops():
+    ops = []
+    for nm in NAMES:
+        for ty, v in SET_VALUES:
+            for rp in (0, 1):
+                ops.append(("set", ty, nm, v, rp))
+        for ty in ("int", "str", "bool", "json"):
+            ops.append(("get", ty, nm))
+        ops.append(("del", nm))
+    return ops
+
+
+def _py_apply(m, op):
+    """apply one op to a PyMap; returns the executor-format answer the property prescribes"""
+    from lib import unhx
+    if op[0] == "set":
+        _, ty, nm, v, rp = op
+        name = unhx(nm)
+        val = unhx(v) if ty in ("str", "json") else v
+        code = m.set(ty, name, val, bool(rp))
+        return "rc=%d verr=%d" % (code, code)
+    if op[0] == "get":
+        _, ty, nm = op
+        code, v = m.get(ty, unhx(nm))
+        return PS.show_get(ty, code, v)
+    m.delete(unhx(op[1]))
+    return "rc=0"
+
+
+def _line(prefix, which, op):
+    if op[0] == "set":
+        return "%s %sset %s %s %s %d" % (prefix, which, op[1], op[2], op[3], op[4])
+    if op[0] == "get":
+        return "%s %sget %s %s" % (prefix, which, op[1], op[2])
+    return "%s %sdel %s" % (prefix, which, op[1])
+
+
+def _step(which, op):
+    if op[0] == "set":
+        return "%sset:%s:%s:%s:%d" % (which, op[1], op[2], op[3], op[4])
+    if op[0] == "get":
+        return "%sget:%s:%s" % (which, op[1], op[2])
+    return "%sdel:%s" % (which, op[1])
+
+
+def setget_suite(world, pool, tier, rng):
+    """C15: sequences of set/get/del on builder headers and claims (and, sampled, on the callback's
+    jwt_t), each followed by a whole-object read-back; expected answers from the PyMap spec"""
+    metas = []
+    ops = setget_ops()
+    seqs = [(o,) for o in ops] + [p for p in itertools.product(ops, repeat=2)]
+    if tier != "thorough":
+        seqs = seqs[:len(ops)] + rng.sample(seqs[len(ops):], 6000)
+    else:
+        seqs += [tuple(rng.choice(ops) for _ in range(3)) for _ in range(60000)]
+    seqs += [tuple(rng.choice(ops) for _ in range(rng.randrange(4, 25))) for _ in range(400 if tier == "thorough" else 60)]
+    for si, s in enumerate(seqs):
+        which = "h" if si % 2 == 0 else "c"
+        world.op("bl 0 new", tag="cfg")
+        m = PS.PyMap()
+        for op in s:
+            want = _py_apply(m, op)
+            metas.append((len(world.ops), {"kind": "setget", "op": str(op)[:80], "want": want, "on": "builder-" + which}))
+            world.op(_line("bl 0", which, op), tag="setget")
+            snap = PS.show_get("json", 0, m.d)
+            metas.append((len(world.ops), {"kind": "setget", "op": "snapshot", "want": snap, "on": "builder-" + which}))
+            world.op("bl 0 %sget json -" % which, tag="setget")
+    # on the jwt_t handed to callbacks (builder callback: starts from the builder's maps + iat)
+    world.op("clock 1000", tag="cfg")
+    cbseqs = rng.sample(seqs, 800 if tier == "thorough" else 150)
+    for si, s in enumerate(cbseqs):
+        which = "h" if si % 2 == 0 else "c"
+        s = s[:6]
+        world.op("bl 1 new", tag="cfg")
+        world.op("bl 1 iat 0", tag="cfg")
+        prog = ",".join(_step(which, op) for op in s) + ",%sget:json:-" % which
+        if len(prog) > 3500:
+            continue
+        world.op("bl 1 setcb " + prog, tag="cfg")
+        m = PS.PyMap()
+        wants = ["alg=0 key=0"] + [_py_apply(m, op) for op in s] + [PS.show_get("json", 0, m.d)]
+        metas.append((len(world.ops), {"kind": "cbobs", "want": ";".join(wants), "on": "jwt_t-" + which, "prog": prog[:100]}))
+        world.op("bl 1 gen", tag="gen")
+    return metas
+
+
+def falsify_setget(m, out, eo=None):
+    if m["kind"] == "setget":
+        if out != m["want"]:
+            return "%s on %s answered `%s`, a typed map answers `%s`" % (m["op"], m["on"], out[:120], m["want"][:120])
+    elif m["kind"] == "cbobs":
+        got = out.split(" cb=[", 1)[1].rsplit("]", 1)[0] if " cb=[" in out else None
+        if got != m["want"]:
+            return "callback operations on %s observed `%s`, a typed map gives `%s`" % (m["on"], (got or out)[:160], m["want"][:160])
+    return None
+
+
+# ---- C10 ------------------------------------------------------------------------------
+def _cfg_alphabet(it_priv):
+    """(executor/driver line suffix, effect on PyBuilder)"""
+    def hset(name, ty, val, raw, rp=1):
+        return ("hset %s %s %s %d" % (ty, hx(name), val, rp), lambda b: b.headers.set(ty, name, raw, bool(rp)))
+
+    def cset(name, ty, val, raw, rp=1):
+        return ("cset %s %s %s %d" % (ty, hx(name), val, rp), lambda b: b.claims.set(ty, name, raw, bool(rp)))
+    al = [hset(b"alg", "str", hx(b"none"), b"none"), hset(b"typ", "str", hx(b"x"), b"x"), hset(b"typ", "int", "7", "7"),
+          hset(b"kid", "str", hx(b"k1"), b"k1", 0), ("hdel " + hx(b"typ"), lambda b: b.headers.delete(b"typ")),
+          ("hdel -", lambda b: b.headers.delete(None)),
+          cset(b"iat", "int", "5", "5"), cset(b"exp", "int", "7", "7"), cset(b"nbf", "str", hx(b"n"), b"n"),
+          cset(b"x", "json", hx(b'{"y":[1,2.5,"z"]}'), b'{"y":[1,2.5,"z"]}'), ("cdel " + hx(b"x"), lambda b: b.claims.delete(b"x")),
+          ("cdel -", lambda b: b.claims.delete(None)),
+          ("iat 0", lambda b: setattr(b, "iat", False)), ("iat 1", lambda b: setattr(b, "iat", True))]
+    for cl in ("exp", "nbf"):
+        for secs in (-5, 0, 1, 600):
+            al.append(("offset %s %d" % (cl, secs), (lambda cl, secs: lambda b: setattr(b, cl + "_off", secs if secs > 0 else None))(cl, secs)))
+    al.append(("setkey 0 %d %d" % it_priv, lambda b: setattr(b, "alg", "HS256")))
+    al.append(("setkey 0", lambda b: setattr(b, "alg", None)))
+    return al
+
+
+def builder_suite(world, pool, tier, rng):
+    """C10: configuration sequences interleaved with generate at several clocks; the token is decoded by
+    an independent reader and compared with what the builder was told; builder state read back after"""
+    metas = []
+    it = world.add_key(70, pool.keys["oct32"], private=True, alg_attr="HS256")
+    al = _cfg_alphabet(it)
+    maxlen = 3 if tier == "thorough" else 2
+    seqs = [s for n in range(0, maxlen + 1) for s in itertools.product(range(len(al)), repeat=n)]
+    if tier != "thorough":
+        seqs = [s for s in seqs if len(s) < 2] + rng.sample([s for s in seqs if len(s) == 2], 250)
+    else:
+        seqs = [s for s in seqs if len(s) < 3] + rng.sample([s for s in seqs if len(s) == 3], 3000)
+    seqs += [tuple(rng.randrange(len(al)) for _ in range(rng.randrange(3, 14))) for _ in range(600 if tier == "thorough" else 120)]
+    cbprogs = [None, "cset:int:%s:42:1,hset:str:%s:%s:1" % (hx(b"iat"), hx(b"alg"), hx(b"zz")), "cdel:-,hdel:-",
+               "cset:json:-:%s:1" % hx(b'{"exp":1,"q":null}')]
+    clocks = [0, 1, 2 ** 31, 2 ** 40]
+    for si, s in enumerate(seqs):
+        world.op("bl 0 new", tag="cfg")
+        b = PS.PyBuilder()
+        for i in s:
+            world.op("bl 0 " + al[i][0], tag="cfg")
+            al[i][1](b)
+        prog = cbprogs[si % len(cbprogs)] if si % 3 == 0 else None
+        if prog:
+            world.op("bl 0 setcb " + prog, tag="cfg")
+
+        def cb(h, c, prog=prog):
+            from lib import unhx
+            for st in prog.split(","):
+                a = st.split(":")
+                tgt = h if a[0][0] == "h" else c
+                if a[0][1:] == "set":
+                    ty = a[1]
+                    raw = unhx(a[3]) if ty in ("str", "json") else a[3]
+                    tgt.set(ty, unhx(a[2]), raw, a[4] != "0")
+                elif a[0][1:] == "del":
+                    tgt.delete(unhx(a[1]))
+        for rep in range(2):
+            now = clocks[(si + rep) % len(clocks)]
+            world.op("clock %d" % now, tag="cfg")
+            eh, ep = b.expected(now, cb if prog else None)
+            metas.append((len(world.ops), {"kind": "gen", "hdr": JL.jenc(eh), "pay": JL.jenc(ep), "alg": b.alg, "now": now,
+                                           "seq": " / ".join(al[i][0] for i in s)[:160], "prog": prog}))
+            world.op("bl 0 gen", tag="gen")
+            # the builder itself is unchanged by generating (and by the callback)
+            metas.append((len(world.ops), {"kind": "setget", "op": "headers-after-gen", "want": PS.show_get("json", 0, b.headers.d), "on": "builder"}))
+            world.op("bl 0 hget json -", tag="setget")
+            metas.append((len(world.ops), {"kind": "setget", "op": "claims-after-gen", "want": PS.show_get("json", 0, b.claims.d), "on": "builder"}))
+            world.op("bl 0 cget json -", tag="setget")
+    # signing with a public-only key is refused
+    pub = world.add_key(71, pool.keys["p256"], private=False, alg_attr="ES256")
+    world.op("bl 0 new", tag="cfg")
+    metas.append((len(world.ops), {"kind": "setkey", "expect_rc": 1, "cfg_alg": 0, "key": "p256-public", "attr": "ES256"}))
+    world.op("bl 0 setkey 0 %d %d" % pub, tag="cfg")
+    world.op("bl 0 setcb key:%d:%d" % pub, tag="cfg")
+    metas.append((len(world.ops), {"kind": "gen-must-fail", "why": "callback selected a public-only key"}))
+    world.op("bl 0 gen", tag="gen")
+    return metas
+
+
+def falsify_builder(m, out, eo=None):
+    from lib import unhx
+    if m["kind"] == "setget":
+        return falsify_setget(m, out)
+    if m["kind"] == "setkey":
+        return None if out == "rc=%d" % m["expect_rc"] else "builder setkey with %s returned %s (expected %d)" % (m["key"], out, m["expect_rc"])
+    tokf, err, msg = field(out, "tok"), field(out, "err"), field(out, "msg")
+    if tokf is None:
+        return None
+    # C14: NULL exactly when the flag is set with a message
+    if (tokf == "NULL") != (err == "1") or (err == "1" and msg != "1") or (tokf != "NULL" and msg != "0"):
+        return "generate returned %s with error flag %s, message-present %s" % ("NULL" if tokf == "NULL" else "a token", err, msg)
+    if m["kind"] == "gen-must-fail":
+        return None if tokf == "NULL" else "generate succeeded although %s" % m["why"]
+    if m["kind"] == "gen":
+        if tokf == "NULL":
+            return "generate failed for a usable configuration [%s]" % m["seq"]
+        tok = unhx(tokf)
+        d = decode_token(tok)
+        if d is None:
+            return "generated string is not three unpadded base64url parts of JSON, JSON, signature: %r" % tok[:80]
+        h, p, sig = d
+        if not isinstance(h, dict) or not isinstance(p, dict):
+            return "header or payload of a generated token is not a JSON object"
+        if JL.jenc(h) != m["hdr"]:
+            return "header of generated token is %s, the builder was told %s [%s]" % (JL.jenc(h)[:200], m["hdr"][:200], m["seq"])
+        if JL.jenc(p) != m["pay"]:
+            return "payload of generated token is %s, the builder was told %s [%s] now=%s" % (JL.jenc(p)[:200], m["pay"][:200], m["seq"], m["now"])
+        if (m["alg"] is None) != (sig == b""):
+            return "signature segment %s for alg %s" % ("empty" if sig == b"" else "present", m["alg"])
+    return None
+
+
+# ---- C05 ------------------------------------------------------------------------------
+def rand_tree(rng, depth=0):
+    r = rng.random()
+    if depth > 5 or r < 0.35:
+        c = rng.randrange(9)
+        if c == 0:
+            return rng.choice([0, 1, -1, 2 ** 31, 2 ** 53 + 1, 2 ** 63 - 1, -(2 ** 63)])
+        if c == 1:
+            return rng.randrange(-10 ** 12, 10 ** 12)
+        if c == 2:
+            return rng.choice([True, False, None])
+        if c == 3:
+            return rng.choice([1.5, -0.25, 1e10, 3.0, 0.1, 1e-7, 123456.789])
+        if c == 4:
+            return ""
+        if c == 5:
+            return "".join(rng.choice("abc xyz/\\\"\n\té中\U0001F600.=-_+") for _ in range(rng.randrange(1, 12)))
+        if c == 6:
+            return "L" * rng.choice([100, 1000, 4096])
+        if c == 7:
+            return {}
+        return []
+    if r < 0.7:
+        return {("k%d" % i if rng.random() < 0.8 else rng.choice(["", "é", "a b", "alg", "exp"])): rand_tree(rng, depth + 1)
+                for i in range(rng.randrange(0, 5))}
+    return [rand_tree(rng, depth + 1) for _ in range(rng.randrange(0, 5))]
+
+
+def roundtrip_suite(world, pool, tier, rng):
+    """C05: generate with every key/alg on each provider, verify with the public half on each provider,
+    read header and claims back in the checker callback"""
+    metas = []
+    thorough = tier == "thorough"
+    per_key = 40 if thorough else 6
+    ec_extra = 4096 if thorough else 150
+    world.op("clock 5000", tag="cfg")
+    s = 100
+    provs = ["openssl", "gnutls"]
+    for name, key in pool.keys.items():
+        priv = world.add_key(s, key, private=True, alg_attr=None)
+        pub = world.add_key(s + 1, key, private=(key.kind == "oct"), alg_attr=None)
+        s += 2
+        for alg in key.admissible_algs():
+            a = K.ALG_ORD[alg]
+            n = per_key + (ec_extra if key.kind == "ec" else 0)
+            for i in range(n):
+                p_sign = provs[i % 2]
+                p_ver = provs[(i // 2) % 2]
+                if alg == "ES256K" and "gnutls" in (p_sign, p_ver):
+                    p_sign = p_ver = "openssl"
+                simple = i >= per_key
+                claims = {"n": i} if simple else {"d": rand_tree(rng), "n": i}
+                hdr = {} if simple else {"x": rand_tree(rng, 3)}
+                world.op("prov name " + hx(p_sign.encode()), tag="cfg")
+                world.op("bl 0 new", tag="cfg")
+                world.op("bl 0 setkey %d %d %d" % ((a,) + priv), tag="cfg")
+                world.op("bl 0 offset exp 60", tag="cfg")
+                world.op("bl 0 offset nbf 1", tag="cfg") if i % 3 == 0 else None
+                world.op("bl 0 cset json - %s 1" % hx(JL.dumps(claims)), tag="cfg")
+                if hdr:
+                    world.op("bl 0 hset json - %s 1" % hx(JL.dumps(hdr)), tag="cfg")
+                exp_claims = dict(claims)
+                exp_claims.update({"iat": 5000, "exp": 5060})
+                if i % 3 == 0:
+                    exp_claims["nbf"] = 5001
+                exp_hdr = dict(hdr)
+                exp_hdr.update({"alg": alg, "typ": "JWT"})
+                metas.append((len(world.ops), {"kind": "gen", "hdr": JL.jenc(exp_hdr), "pay": JL.jenc(exp_claims), "alg": alg, "now": 5000,
+                                               "seq": "%s/%s sign=%s" % (name, alg, p_sign), "prog": None}))
+                world.op("bl 0 gen", tag="gen")
+                world.op("prov name " + hx(p_ver.encode()), tag="cfg")
+                world.op("clock 5002", tag="cfg")
+                world.op("ck 0 new", tag="cfg")
+                world.op("ck 0 setkey %d %d %d" % ((a,) + pub), tag="cfg")
+                world.op("ck 0 setcb cget:json:-,hget:json:-", tag="cfg")
+                want_obs = "alg=%d key=1;%s;%s" % (a, PS.show_get("json", 0, exp_claims), PS.show_get("json", 0, exp_hdr))
+                metas.append((len(world.ops), {"kind": "verify-generated", "key": name, "alg": alg, "sign": p_sign, "verify": p_ver,
+                                               "want_obs": want_obs}))
+                world.op("ck 0 verify @last", tag="verify")
+                world.op("clock 5000", tag="cfg")
+    world.op("prov name " + hx(b"openssl"), tag="cfg")
+    return metas
+
+
+def falsify_roundtrip(m, out, eo=None):
+    if m["kind"] == "gen":
+        return falsify_builder(m, out)
+    if m["kind"] == "verify-generated":
+        c = c14_contract(out)
+        if c:
+            return "C14 contract broken: " + c
+        if field(out, "rc") != "0":
+            return "token generated with %s/%s under %s is rejected by a checker holding the public half under %s" % (
+                m["key"], m["alg"], m["sign"], m["verify"])
+        got = out.split(" cb=[", 1)[1].rsplit("]", 1)[0]
+        if got != m["want_obs"]:
+            return "header/claims read in the checker callback differ from what the builder was given plus alg/typ/iat/nbf/exp: got %s want %s" % (
+                got[:300], m["want_obs"][:300])
+    return None
+
+
+# ---- C13b / C14b / C03b / C09b ---------------------------------------------------------
+def builder_reuse_suite(world, pool, tier, rng):
+    """sequences of generate calls (succeeding, failing in the callback, failing on the key) with and
+    without error_clear on one builder; each result compared with a fresh identically configured builder"""
+    metas = []
+    good = world.add_key(80, pool.keys["oct32"], private=True, alg_attr="HS256")
+    weak = world.add_key(81, K.Key("oct", k=b"short-key-16byte", bits=128), private=True, alg_attr="HS256")
+    world.op("clock 7000", tag="cfg")
+    # step alphabet: (lines applied to the builder before generating, label)
+    steps = [("ok", ["setcb -", "setkey 0 %d %d" % good]), ("cbfail", ["setcb ret:5"]), ("weak-key", ["setcb -", "setkey 0 %d %d" % weak]),
+             ("cb-badkey", ["setcb key:%d:%d,alg:7" % good]), ("unsigned", ["setcb -", "setkey 0"]), ("errclr", None)]
+    maxlen = 4 if tier == "thorough" else 3
+    seqs = [s for n in range(1, maxlen + 1) for s in itertools.product(range(len(steps)), repeat=n)]
+    seqs += [tuple(rng.randrange(len(steps)) for _ in range(rng.randrange(5, 30))) for _ in range(200 if tier == "thorough" else 40)]
+    for s in seqs:
+        world.op("bl 0 new", tag="cfg")
+        world.op("bl 0 setkey 0 %d %d" % good, tag="cfg")
+        applied = []
+        for i in s:
+            label, lines = steps[i]
+            if lines is None:
+                world.op("bl 0 errclr", tag="cfg")
+                continue
+            for l in lines:
+                world.op("bl 0 " + l, tag="cfg")
+                applied.append(l)
+            # fresh builder with the same configuration history
+            world.op("bl 1 new", tag="cfg")
+            world.op("bl 1 setkey 0 %d %d" % good, tag="cfg")
+            for l in applied:
+                world.op("bl 1 " + l, tag="cfg")
+            ref = len(world.ops)
+            metas.append((ref, {"kind": "gen-ref", "label": label}))
+            world.op("bl 1 gen", tag="gen")
+            metas.append((len(world.ops), {"kind": "gen-reused", "label": label, "ref": ref,
+                                           "history": "/".join(steps[j][0] for j in s)[:80]}))
+            world.op("bl 0 gen", tag="gen")
+    return metas
+
+
+def falsify_builder_reuse(m, out, eo):
+    tokf, err, msg = field(out, "tok"), field(out, "err"), field(out, "msg")
+    if (tokf == "NULL") != (err == "1") or (err == "1" and msg != "1") or (tokf != "NULL" and msg != "0"):
+        return "generate returned %s with error flag %s, message-present %s (%s)" % ("NULL" if tokf == "NULL" else "a token", err, msg, m["label"])
+    if m["kind"] == "gen-reused":
+        ref = eo[m["ref"]]
+        if field(ref, "tok") != tokf:
+            return "a reused builder (history %s) generated %s..., a fresh identically configured one %s..." % (
+                m["history"], tokf[:40], field(ref, "tok")[:40])
+    want_fail = m["label"] in ("cbfail", "weak-key", "cb-badkey")
+    if want_fail != (tokf == "NULL"):
+        return "generate %s for step %s" % ("failed" if tokf == "NULL" else "succeeded", m["label"])
+    return None
+
+
+def builder_routes_suite(world, pool, tier, rng, extra_keys=None):
+    """C03b/C02b/C09b: key via setkey / via callback / both; explicit alg none/equal/different; key alg
+    attribute present/absent; private/public; every key type incl. weak ones"""
+    metas = []
+    allk = dict(pool.keys)
+    allk.update(extra_keys or {})
+    s = 200
+    for name, key in allk.items():
+        for attr in alg_attr_choices(key):
+            for private in (True, False):
+                if key.kind == "oct" and not private:
+                    continue
+                it = world.add_key(s, key, private=private, alg_attr=attr)
+                s += 1
+                attr_ord = 0 if attr is None else K.ALG_ORD.get(attr, 15)
+                adm = key.admissible_algs()
+                cfg_algs = [0] + sorted({K.ALG_ORD[a] for a in adm[:2]} | {1, 7, 15} | ({attr_ord} if attr_ord else set()))
+                for cfg_alg in cfg_algs:
+                    for route in ("setkey", "cb-key-only", "cb-key-alg", "setkey+cb-other"):
+                        world.op("bl 0 new", tag="cfg")
+                        admitted = private and ((attr_ord == 0 and cfg_alg != 0) or (attr_ord != 0 and (cfg_alg == 0 or cfg_alg == attr_ord)))
+                        if route == "setkey":
+                            metas.append((len(world.ops), {"kind": "setkey", "expect_rc": 0 if admitted else 1, "cfg_alg": cfg_alg,
+                                                           "key": name + ("" if private else "-public"), "attr": attr}))
+                            world.op("bl 0 setkey %d %d %d" % ((cfg_alg,) + it), tag="cfg")
+                            eff_admitted, has_key, used = True, admitted, (cfg_alg or attr_ord)
+                        elif route == "cb-key-only":
+                            if cfg_alg != 0:
+                                continue
+                            world.op("bl 0 setcb key:%d:%d" % it, tag="cfg")
+                            eff_admitted = private and attr_ord != 0
+                            has_key, used = True, attr_ord
+                        elif route == "cb-key-alg":
+                            world.op("bl 0 setcb key:%d:%d,alg:%d" % (it + (cfg_alg,)), tag="cfg")
+                            eff_admitted, has_key, used = admitted, True, (cfg_alg or attr_ord)
+                        else:
+                            world.op("bl 0 setkey %d %d %d" % ((cfg_alg,) + it), tag="cfg")
+                            world.op("bl 0 setcb nokey,alg:0", tag="cfg")
+                            eff_admitted, has_key, used = True, False, 0
+                        alg_name = K.ORD_ALG.get(used)
+                        if not has_key:
+                            expect = "unsigned"
+                        elif eff_admitted and alg_name in K.FAMILY and K.usable(key, alg_name):
+                            expect = "signed:" + alg_name
+                        else:
+                            expect = "fail"
+                        if alg_name == "ES256K" and False:
+                            expect = "fail"
+                        metas.append((len(world.ops), {"kind": "gen-route", "key": name, "private": private, "attr": attr, "cfg_alg": cfg_alg,
+                                                       "route": route, "expect": expect}))
+                        world.op("bl 0 gen", tag="gen")
+    return metas
+
+
+def falsify_builder_routes(m, out, eo=None):
+    from lib import unhx
+    if m["kind"] == "setkey":
+        return None if out == "rc=%d" % m["expect_rc"] else "builder setkey(%s, %s attr=%s) returned %s, the documented table says %d" % (
+            m["cfg_alg"], m["key"], m["attr"], out, m["expect_rc"])
+    tokf, err, msg = field(out, "tok"), field(out, "err"), field(out, "msg")
+    if (tokf == "NULL") != (err == "1") or (err == "1" and msg != "1") or (tokf != "NULL" and msg != "0"):
+        return "generate returned %s with error flag %s, message-present %s" % ("NULL" if tokf == "NULL" else "a token", err, msg)
+    desc = {k: v for k, v in m.items() if k != "kind"}
+    if tokf == "NULL":
+        return None if m["expect"] == "fail" else "generate failed where the property expects a %s token: %s" % (m["expect"], desc)
+    d = decode_token(unhx(tokf))
+    if d is None:
+        return "generated string is malformed: %s" % desc
+    h, p, sig = d
+    if m["expect"] == "fail":
+        return "generate produced a token (alg %s, %d signature bytes) where it must fail: %s" % (h.get("alg"), len(sig), desc)
+    if m["expect"] == "unsigned":
+        if h.get("alg") != "none" or sig != b"":
+            return "a builder without key emitted alg=%s with %d signature bytes: %s" % (h.get("alg"), len(sig), desc)
+    else:
+        want = m["expect"].split(":")[1]
+        if h.get("alg") != want or sig == b"":
+            return "a builder holding a key emitted alg=%s with %d signature bytes (pinned %s): %s" % (h.get("alg"), len(sig), want, desc)
+    return None
